@@ -80,21 +80,24 @@ theorem isPrint_of_upper {c : Char} (h : isUpper c = true) : isPrint c = true :=
 theorem isPrint_of_letter {c : Char} (h : isLetter c = true) : isPrint c = true := by
   simp only [isLetter, isUpper, isLower, isPrint, Bool.or_eq_true, Bool.and_eq_true, decide_eq_true_eq] at *; omega
 
-theorem PL_refHead (i : Nat) (r : RRef) (h : PL r.range) : PL (refHead i r) := by
+theorem PL_refNumber (i : Nat) (r : RRef) (hn : r.number.all isVisible = true) : PL (refNumber i r) :=
+  (refNumber_tok i r hn).2.1
+
+theorem PL_refHead (i : Nat) (r : RRef) (hn : r.number.all isVisible = true) (h : PL r.range) : PL (refHead i r) := by
   unfold refHead; split
-  · simpa using PL_ofNat (i + 1)
-  · exact PL_append (PL_ofNat _) (PL_append (by decide) h)
+  · simpa using PL_refNumber i r hn
+  · exact PL_append (PL_refNumber i r hn) (PL_append (by decide) h)
 
 theorem PL_refLines (i : Nat) (r : RRef) (ℓ : RefLayout) (h : wfRef r = true) : ∀ l ∈ refLines i r ℓ, PL l := by
   simp only [wfRef, Bool.and_eq_true] at h
-  obtain ⟨⟨⟨⟨⟨h1, h2⟩, h3⟩, h4⟩, h5⟩, h6⟩ := h
+  obtain ⟨⟨⟨⟨⟨⟨h0, h1⟩, h2⟩, h3⟩, h4⟩, h5⟩, h6⟩ := h
   intro l hl
   simp only [refLines, List.mem_append] at hl
   rcases hl with hl | ((((hl | hl) | hl) | hl) | hl)
   · unfold refHeadLines at hl; split at hl
     · simp only [List.mem_singleton] at hl; subst hl
-      exact PL_append (PL_append (PL_padRight (by decide) 12) (PL_ofNat _)) (by decide)
-    · exact PL_block (by decide) (PL_refHead i r (PL_isText h1)) _ l hl
+      exact PL_append (PL_append (PL_padRight (by decide) 12) (PL_refNumber i r h0)) (by decide)
+    · exact PL_block (by decide) (PL_refHead i r h0 (PL_isText h1)) _ l hl
   · exact PL_optBlock (by decide) (PL_isText h2) _ l hl
   · exact PL_optBlock (by decide) (PL_isText h3) _ l hl
   · exact PL_optBlock (by decide) (PL_isText h4) _ l hl
